@@ -250,6 +250,36 @@ func c09CheckMethod(c *Ctx, rule, key string, f *ssa.Function, kind string, num 
 			}
 			valOK = lenOK && strings.HasPrefix(order, "RC") && strings.Contains(order, "AA") && strings.HasSuffix(order, "WB")
 			found = "order " + order
+			// one and the same sub-buffer throughout: the one that was reset is the one the nested builder writes into
+			// (its writer, set before the callback runs), the one whose length is announced and the one whose bytes
+			// are written (a buffer that is not reset carries the sub-messages of earlier calls of a reused builder)
+			{
+				bufKey := func(t *Term) string { return stripVers(stripConv(t)).Key() }
+				var resetB, lenB, bytesB, nestedW string
+				cbSeq := -1
+				for _, e := range p.Calls() {
+					t := e.Call
+					switch {
+					case t.Op == "call" && strings.HasSuffix(t.Sym, "Buffer).Reset") && resetB == "":
+						resetB = bufKey(t.Args[0])
+					case t.Op == "call" && strings.HasSuffix(t.Sym, "Buffer).Len"):
+						lenB = bufKey(t.Args[0])
+					case t.Op == "call" && strings.HasSuffix(t.Sym, "Buffer).Bytes"):
+						bytesB = bufKey(t.Args[0])
+					case t.Op == "dyncall" && cbSeq < 0:
+						cbSeq = e.Seq
+					}
+				}
+				for _, e := range p.Effects {
+					if e.Kind == "store" && e.Addr.Op == "field" && e.Addr.Sym == "writer" && e.Seq < cbSeq && !e.Addr.Args[0].isParam(0) {
+						nestedW = bufKey(e.Val)
+					}
+				}
+				if valOK && !(resetB != "" && resetB == lenB && resetB == bytesB && resetB == nestedW) {
+					valOK = false
+					found = fmt.Sprintf("sub-buffers differ: reset %s, nested writer %s, announced length of %s, written bytes of %s", resetB, nestedW, lenB, bytesB)
+				}
+			}
 		default:
 			found = "unknown kind " + kind
 		}
